@@ -260,6 +260,8 @@ type Parser struct {
 	IsRecovering bool
 	ErrorSymbol  int
 	NumTerminals int
+
+	TypedTerminals bool // some terminal has an associated value type
 }
 
 // Options carries grammar generation parameters.
